@@ -29,3 +29,66 @@ Definition law_recorded (hn : list (positive * info)) (real : list (positive * l
   | _, Some r => covers real r nodes &&
                  match aget r hn with Some i => Z.leb (i_tier i) limit | None => false end
   end.
+
+(* L6c: the property text's reading — the recorded AllocatedHyperNode is the LOWEST HyperNode
+   that holds every placement (no HyperNode of a lower tier does).  The code records the LCA of
+   the chosen DOMAINS instead (finding D11), so this law is expected to fail when a domain
+   wider than the placements was chosen. *)
+Definition law_recorded_lowest (hn : list (positive * info)) (real : list (positive * list positive))
+           (recorded : option positive) (nodes : list positive) : bool :=
+  match nodes, recorded with
+  | [], _ | _, None => true
+  | _, Some r =>
+      match aget r hn with
+      | None => false
+      | Some ir => forallb (fun ki => negb (covers real (fst ki) nodes) || Z.leb (i_tier ir) (i_tier (snd ki))) hn
+      end
+  end.
+
+(* L7: a view that is not ready is not scheduled on: no pod of a job that has any hard topology
+   constraint (job level or sub-group level) is bound in such a session *)
+Definition law_not_ready_no_bind (not_ready : bool) (new_binds : Z) : bool :=
+  implb not_ready (Z.eqb new_binds 0).
+
+(* ---------- what the placement laws mean ---------- *)
+Lemma covers_sound real h nodes : covers real h nodes = true ->
+  nodes = [] \/ exists l, aget h real = Some l /\ forall n, In n nodes -> In n l.
+Proof.
+  unfold covers. destruct (aget h real) as [l|].
+  - intros H. right. exists l. split; [reflexivity|]. intros n Hn.
+    rewrite forallb_forall in H. specialize (H n Hn).
+    clear -H. induction l as [|y r IH]; simpl in H; [discriminate|].
+    apply orb_true_iff in H. destruct H as [H|H]; [apply Pos.eqb_eq in H; now left|right; auto].
+  - destruct nodes; [now left|discriminate].
+Qed.
+
+(* law 108 = "all placements lie in the leaf set of ONE HyperNode of tier <= limit" *)
+Theorem law_placement_sound : forall hn real limit recorded nodes,
+  law_placement hn real limit recorded nodes = true ->
+  nodes = [] \/
+  exists h i l, In (h, i) hn /\ i_tier i <= limit /\ aget h real = Some l /\ forall n, In n nodes -> In n l.
+Proof.
+  intros hn real limit recorded nodes H. unfold law_placement in H.
+  destruct nodes as [|n0 ns]; [now left|]. right.
+  apply existsb_exists in H. destruct H as [[h i] [Hin H]]. apply andb_true_iff in H. destruct H as [Ht Hc].
+  apply Z.leb_le in Ht. apply covers_sound in Hc. destruct Hc as [Hc|[l [Hl Hall]]]; [discriminate|].
+  exists h, i, l. auto.
+Qed.
+
+(* law 109 = "the recorded AllocatedHyperNode holds every placement and has tier <= limit" *)
+Theorem law_recorded_sound : forall hn real limit r nodes,
+  law_recorded hn real limit (Some r) nodes = true -> nodes <> [] ->
+  (exists i, aget r hn = Some i /\ i_tier i <= limit) /\
+  exists l, aget r real = Some l /\ forall n, In n nodes -> In n l.
+Proof.
+  intros hn real limit r nodes H Hne. unfold law_recorded in H.
+  destruct nodes as [|n0 ns]; [contradiction|].
+  apply andb_true_iff in H. destruct H as [Hc Ht].
+  apply covers_sound in Hc. destruct Hc as [Hc|Hc]; [discriminate|].
+  split; [|exact Hc]. destruct (aget r hn) as [i|]; [|discriminate].
+  exists i. split; [reflexivity|now apply Z.leb_le].
+Qed.
+
+Theorem law_not_ready_no_bind_sound : forall nr k,
+  law_not_ready_no_bind nr k = true -> nr = true -> k = 0.
+Proof. intros nr k H ->. simpl in H. now apply Z.eqb_eq. Qed.
